@@ -36,6 +36,8 @@ struct C12Case {
     mode: Mode,
     replies: Vec<String>,
     probes: Vec<String>,
+    /// a get_listing() snapshot is alive while the final RUN / CLEAR / NEW executes
+    snapshot: bool,
     sched_variant: usize,
     entropy: u64,
 }
@@ -129,6 +131,10 @@ impl Case for C12Case {
             // tracing persists across RUN by the manual: switch it off inside the prefix
             w.line("TROFF", &LineIo::budget(100));
             let mut f = World::booted(sched(self.sched_variant + 1), self.entropy, false);
+            if self.snapshot {
+                w.snap_take();
+                w.stats.bump("c12.snapshot_held_across_reset");
+            }
             let (kind, final_lines): (&str, Vec<String>) = match &self.mode {
                 Mode::RunOther(p2) => {
                     w.line("NEW", &LineIo::budget(100));
@@ -199,6 +205,9 @@ impl Case for C12Case {
                         detail: format!("after NEW the listing is {:?}", w.listing_text()),
                     });
                 }
+            }
+            if self.snapshot {
+                w.snap_check(0);
             }
             twin_instr = f.total_instr;
             v.stats.merge(&f.stats);
@@ -284,6 +293,12 @@ impl Case for C12Case {
                 }
             }
         }
+        if self.snapshot {
+            out.push(Box::new(C12Case {
+                snapshot: false,
+                ..self.clone()
+            }));
+        }
         if self.sched_variant != 0 {
             out.push(Box::new(C12Case {
                 sched_variant: 0,
@@ -315,9 +330,176 @@ impl Case for C12Case {
             .set("first_program", program_json(&self.p1))
             .set("prefix", Json::Arr(hist))
             .set("final", mode)
+            .set("snapshot_held_across_the_reset", self.snapshot)
             .set("replies", self.replies.clone())
             .set("quantum_schedule_variant", self.sched_variant)
             .set("entropy", self.entropy)
+            .build()
+    }
+}
+
+/// A program that restarts itself: `RUN` / `RUN n` executed as a statement from inside GOSUB and FOR.
+/// What follows the restart must equal the program's run on a fresh runtime, and the abandoned
+/// frames must be gone (a stray RETURN / NEXT typed afterwards answers as on the fresh runtime).
+#[derive(Clone)]
+struct C12RestartCase {
+    variant: u32,
+    probes: Vec<String>,
+    sched_variant: usize,
+    entropy: u64,
+}
+
+impl C12RestartCase {
+    fn program(&self) -> Vec<String> {
+        let run = if self.variant & 8 != 0 { "RUN 10" } else { "RUN" };
+        let v: Vec<String> = match self.variant % 4 {
+            0 => vec![
+                "10 DIM Q(3):Q(1)=Q(1)+5:DEF FNA(X)=X+1:D$=D$+\"SET\"".to_string(),
+                "20 GOSUB 100".to_string(),
+                "30 PRINT \"END\";Q(1);D$:END".to_string(),
+                "100 FOR I=1 TO 2:FOR J=1 TO 2".to_string(),
+                "110 INPUT A".to_string(),
+                format!("120 IF A=1 THEN {}", run),
+                "130 NEXT:NEXT:RETURN".to_string(),
+            ],
+            1 => vec![
+                "10 C=C+1:READ X:PRINT X;C".to_string(),
+                "20 FOR I%=1 TO 3".to_string(),
+                format!("30 INPUT A:IF A=1 THEN {}", run),
+                "40 NEXT I%".to_string(),
+                "50 PRINT \"END\";C:DATA 7,8".to_string(),
+            ],
+            2 => vec![
+                "10 DEFINT Z:Z=Z+1.5:PRINT Z".to_string(),
+                "20 GOSUB 40".to_string(),
+                "30 PRINT \"END\":END".to_string(),
+                "40 GOSUB 50:RETURN".to_string(),
+                format!("50 INPUT A:IF A=1 THEN {} ELSE RETURN", run),
+            ],
+            _ => vec![
+                "10 W%=W%+1:PRINT W%".to_string(),
+                "20 WHILE W%<3".to_string(),
+                format!("30 INPUT A:IF A=1 THEN {}", run),
+                "40 W%=W%+1:WEND".to_string(),
+                "50 PRINT \"END\";W%".to_string(),
+            ],
+        };
+        v
+    }
+}
+
+impl Case for C12RestartCase {
+    fn execute(&self) -> Verdict {
+        let mut v = Verdict::default();
+        let prog = self.program();
+        let mut w = World::booted(sched(self.sched_variant), self.entropy, false);
+        let mut f = World::booted(sched(self.sched_variant + 1), self.entropy, false);
+        enter_program(&mut w, &prog);
+        enter_program(&mut f, &prog);
+        let zeros: Vec<String> = vec!["0".to_string(); 8];
+        let mut with_restart = vec!["0".to_string(); (self.variant as usize >> 4) % 3];
+        let skip = with_restart.len();
+        with_restart.push("1".into());
+        with_restart.extend(zeros.iter().cloned());
+        basic::verif::set_entropy(self.entropy ^ 0x77);
+        let o1 = w.line(
+            "RUN",
+            &LineIo {
+                replies: with_restart,
+                max_instr: 20_000,
+                ..Default::default()
+            },
+        );
+        basic::verif::set_entropy(self.entropy ^ 0x77);
+        let o2 = f.line(
+            "RUN",
+            &LineIo {
+                replies: zeros,
+                max_instr: 20_000,
+                ..Default::default()
+            },
+        );
+        // everything after the reply that triggered the restart
+        let e1 = &w.events[o1.ev_start..o1.ev_end];
+        let mut seen = 0usize;
+        let mut cut = 0usize;
+        for (i, e) in e1.iter().enumerate() {
+            if let Ev::Reply(_) = e {
+                seen += 1;
+                if seen == skip + 1 {
+                    cut = i + 1;
+                    break;
+                }
+            }
+        }
+        let t1 = tokens(&e1[cut..]);
+        let t2 = tokens(&f.events[o2.ev_start..o2.ev_end]);
+        let mut fail: Option<Violation> = None;
+        w.stats.bump("c12.self_restart");
+        if w.fatal.is_none() && f.fatal.is_none() {
+            if seen < skip + 1 {
+                v.discarded = Some("the restarting reply was never asked for".into());
+            } else if t1 != t2 {
+                fail = Some(Violation {
+                    key: "C12:self-restart:run-differs-from-fresh".into(),
+                    detail: format!("after the program restarted itself with RUN: {} (fresh runtime + RUN is 'expected'; program {:?})", first_diff(&t2, &t1), prog),
+                });
+            } else {
+                for p in &self.probes {
+                    let o1 = w.line(p, &LineIo::budget(5000));
+                    let o2 = f.line(p, &LineIo::budget(5000));
+                    let a = tokens(&w.events[o1.ev_start..o1.ev_end]);
+                    let b = tokens(&f.events[o2.ev_start..o2.ev_end]);
+                    w.stats.bump("c12.lines_compared");
+                    if a != b && w.fatal.is_none() && f.fatal.is_none() {
+                        fail = Some(Violation {
+                            key: format!("C12:self-restart:{}:differs-from-fresh", p.split(|c: char| !c.is_ascii_alphabetic()).next().unwrap_or("")),
+                            detail: format!("{:?} after a run in which the program restarted itself from inside GOSUB/FOR: {} (fresh is 'expected'; program {:?})", p, first_diff(&b, &a), prog),
+                        });
+                        break;
+                    }
+                }
+            }
+        }
+        if let Some(ft) = w.fatal.as_ref().or(f.fatal.as_ref()) {
+            fail = Some(fatal_violation("C12", ft));
+        }
+        v.violation = fail;
+        v.stats.merge(&w.stats);
+        v.instr = w.total_instr + f.total_instr;
+        v.sim_us = w.sim_us;
+        v.executions = 2;
+        v.fingerprint = w.log_hash;
+        v.nontrivial = true;
+        v
+    }
+    fn shrink(&self) -> Vec<Box<dyn Case>> {
+        let mut out: Vec<Box<dyn Case>> = vec![];
+        for i in 0..self.probes.len() {
+            if self.probes.len() > 1 {
+                let mut q = self.probes.clone();
+                q.remove(i);
+                out.push(Box::new(C12RestartCase {
+                    probes: q,
+                    ..self.clone()
+                }));
+            }
+        }
+        if self.sched_variant != 0 {
+            out.push(Box::new(C12RestartCase {
+                sched_variant: 0,
+                ..self.clone()
+            }));
+        }
+        out
+    }
+    fn describe(&self) -> Json {
+        obj()
+            .set("kind", "C12 program restarting itself with RUN from inside GOSUB / FOR / WHILE (reply 1), compared from the restart on with RUN on a fresh runtime, then stray RETURN / NEXT / CONT and variable probes")
+            .set("program", program_json(&self.program()))
+            .set("replies_before_the_restart", ((self.variant as usize >> 4) % 3) as i64)
+            .set("probes", self.probes.clone())
+            .set("quantum_schedule_variant", self.sched_variant)
             .build()
     }
 }
@@ -355,6 +537,23 @@ impl Property for C12 {
         "C12"
     }
     fn generate(&self, rng: &mut Rng, _tier: Tier) -> Box<dyn Case> {
+        if rng.pct(5) {
+            let mut probes: Vec<String> = vec![];
+            for p in ["RETURN", "NEXT", "NEXT I", "NEXT I%", "CONT", "PRINT FNA(1)", "PRINT A;I;J;C;W%;Z;Q(1);\"<\";D$;\">\"", "WEND", "READ X:PRINT X"] {
+                if rng.pct(50) {
+                    probes.push(p.to_string());
+                }
+            }
+            if probes.is_empty() {
+                probes.push("RETURN".into());
+            }
+            return Box::new(C12RestartCase {
+                variant: rng.below(1 << 10) as u32,
+                probes,
+                sched_variant: rng.usize(3),
+                entropy: rng.next_u64(),
+            });
+        }
         let mut cfg = GenCfg::swarm(rng);
         cfg.size = *rng.pick(&[2usize, 4, 6, 10]);
         cfg.fns = rng.pct(60);
@@ -432,6 +631,7 @@ impl Property for C12 {
             mode,
             replies,
             probes,
+            snapshot: rng.pct(25),
             sched_variant: rng.usize(3),
             entropy: rng.next_u64(),
         })
@@ -449,7 +649,7 @@ impl Property for C12 {
         }
     }
     fn rule(&self) -> &'static str {
-        "one evaluation = a generated program plus a session prefix of 1-5 steps (RUN/CONT to completion, planted error, STOP or Ctrl-C at a seeded instruction; direct statements leaving variables, arrays, DEFtype, READ position, abandoned FOR/GOSUB frames, a pending INPUT, RND draws behind), then one of: NEW + another generated program + RUN; RUN again; CLEAR + probe lines; NEW + probe lines + LIST - each line compared with a fresh twin runtime (entropy aligned at the compared RUN/CLEAR/NEW); distinct = distinct API/event log fingerprint; non-trivial = more than 20 VM instructions executed in the prefix"
+        "one evaluation = a generated program plus a session prefix of 1-5 steps (RUN/CONT to completion, planted error, STOP or Ctrl-C at a seeded instruction; direct statements leaving variables, arrays, DEFtype, READ position, abandoned FOR/GOSUB frames, a pending INPUT, RND draws behind), then one of: NEW + another generated program + RUN; RUN again; CLEAR + probe lines; NEW + probe lines + LIST (25% with a get_listing() snapshot held across the reset) - each line compared with a fresh twin runtime (entropy aligned at the compared RUN/CLEAR/NEW); (5%: a program that restarts itself with RUN / RUN n as a statement from inside GOSUB, FOR or WHILE when the operator answers 1; everything after the restart, and stray RETURN / NEXT / CONT / WEND / READ and variable probes afterwards, compared with RUN on a fresh runtime); distinct = distinct API/event log fingerprint; non-trivial = more than 20 VM instructions executed in the prefix"
     }
     fn assumptions(&self) -> Vec<&'static str> {
         vec![
@@ -468,6 +668,8 @@ impl Property for C12 {
             "c12.prefix_left_functions",
             "c12.prefix_left_data_position",
             "c12.lines_compared",
+            "c12.snapshot_held_across_reset",
+            "c12.self_restart",
         ]
     }
 }
